@@ -34,6 +34,7 @@ pub fn replay(v: &Value) -> Result<Option<String>, String> {
                 pair_mode,
                 clone_mode: v["clone_mode"].as_bool().unwrap_or(false),
                 explicit_inputs: None,
+                static_set: v["static_set"].as_str().map(String::from),
             };
             let progress = |_: usize| {};
             let cx = ShardCtx { shard: 0, nshards: 1, known: Sw::NONE, skip: vec![], progress: &progress };
